@@ -34,38 +34,33 @@ theorem rejected_status_65 (P : Platform) (fuel : Nat) (src input : List Char)
 /-- the lenient `consume` (after a print / expression statement, at the end of a block) goes on
     parsing but still flags the error -/
 theorem lenient_consume_still_flags (tt : TT) (msg : String) (t : Token) (r : List Token) (h : t.tt ≠ tt) :
-    lenient tt msg (t :: r) = some (t :: r, [errAt t msg.toList]) := by
-  simp [lenient, h]
+    lenient tt msg (t :: r) = .ok () (t :: r) [errAt t msg.toList] := by
+  simp [lenient, peekTokS, h]
 
 theorem lenient_consume_ok (tt : TT) (msg : String) (t : Token) (r : List Token) (h : t.tt = tt) :
-    lenient tt msg (t :: r) = some (r, []) := by
-  simp [lenient, h]
+    lenient tt msg (t :: r) = .ok () r [] := by
+  simp [lenient, peekTokS, h]
 
 /-- built-in names are barred as declared variable and function names -/
 theorem reserved_variable_rejected (f il : Nat) (t : Token) (r : List Token) (ht : t.tt = .IDENTIFIER)
     (hr : isReserved t.lexeme = true) :
     varDecls (f + 1) il (t :: r) = .err (errAt t (reservedMsg t.lexeme "variable")) := by
-  unfold varDecls; simp [ht, hr]
+  unfold varDecls; simp [peekTok, ht, hr]
 
 theorem reserved_function_rejected (f : Nat) (t : Token) (r : List Token) (ht : t.tt = .IDENTIFIER)
     (hr : isReserved t.lexeme = true) :
     function (f + 1) (t :: r) = .err [errAt t (reservedMsg t.lexeme "function")] := by
-  unfold function; simp [ht, hr]
+  unfold function; simp [peekTokS, ht, hr]
 
 /-- at most 255 parameters: the 256th is diagnosed -/
 theorem too_many_parameters (f n : Nat) (t : Token) (r : List Token) (hn : n ≥ Expect.maxParams) :
     params (f + 1) n (t :: r) = .err (errAt t "Can't have more than 255 parameters.".toList) := by
-  unfold params; simp [hn]
+  unfold params; simp [peekTok, hn]
 
 /-- `{` at the start of a statement opens a block, never an object literal -/
 theorem brace_opens_block (f : Nat) (t : Token) (r : List Token) (ht : t.tt = .LEFT_BRACE) :
-    statement (f + 1) (t :: r) =
-      match block f r with
-      | .ok ss r1 ds => .ok (.block ss) r1 ds
-      | .err ds => .err ds
-      | .abn x => .abn x := by
-  unfold statement; simp [ht]
-  cases block f r <;> rfl
+    statement (f + 1) (t :: r) = (block f r).bind fun ss r1 => .ok (.block ss) r1 [] := by
+  unfold statement; simp [peekTokS, ht]
 
 /-- a diagnostic of the parser names the line of the token it stopped at -/
 theorem diagnostic_line_is_token_line (t : Token) (msg : List Char) : (errAt t msg).line = t.line := rfl
